@@ -120,8 +120,8 @@ pub fn run(tier: &str, seed: u64, out: &mut Out) {
         let src = g.file();
         let feats: Vec<&str> = g.features.keys().cloned().collect();
         let mut tg = TmplGroup::new();
-        let diags = tg.add_tmpl("p", &src);
-        tg.add_tmpl("inc", &inc_src);
+        let diags = { crate::util::note_input(&*src); tg.add_tmpl("p", &src) };
+        { crate::util::note_input(&*inc_src); tg.add_tmpl("inc", &inc_src) };
         let max_level = diags.iter().map(|d| d.kind.level() as u8).max().unwrap_or(0);
         let bundle = tg.get_tmpl_gen_object_groups().unwrap_or_default();
         // history
@@ -190,7 +190,7 @@ pub fn run_subsets(tier: &str, seed: u64, out: &mut Out) {
     let mut id = 0;
     for (ti, src) in templates.iter().enumerate() {
         let mut tg = TmplGroup::new();
-        tg.add_tmpl("p", src);
+        { crate::util::note_input(&*src); tg.add_tmpl("p", src) };
         let bundle = tg.get_tmpl_gen_object_groups().unwrap_or_default();
         let nsub = 1usize << leaves.len();
         for mask in 1..nsub {
@@ -307,6 +307,10 @@ pub fn run_matrix(tier: &str, seed: u64, out: &mut Out) {
     // a member of a conditional whose branch is the item of a list without data path (the item's path variable is null)
     loop_templates.push("<block wx:for=\"{{ a ? g : [{name: 'lit', members: []}] }}\"><v model:value=\"{{ (d ? item : k[0]).name }}\" bind:tap=\"{{ (d ? item : k[0]).name }}\" change:p=\"{{ (d ? item : k[0]).name }}\"/></block>");
     loop_templates.push("<block wx:for=\"{{ a ? g : [{name: 'lit', members: [{name: 'lm'}]}] }}\"><v model:value=\"{{ (d ? (a ? item : k[0]) : item).members[0].name }}\"/></block>");
+    // script modules (inline and external, inline first) whose members are event handlers, change: listeners and loop lists:
+    // general paths rooted at a module must name it; an item of a module's list is not assignable (no model path)
+    loop_templates.push("<wxs module=\"inl\">exports.h = function inl_h(){}; exports.o = {g: function inl_o_g(){}}; exports.list = [{name: 'i0', f: function inl_list_0_f(){}}]</wxs><wxs module=\"ext\" src=\"/e1\"/><v bind:tap=\"{{ inl.h }}\" change:p=\"{{ inl.o.g }}\" catch:x=\"{{ ext.g }}\" mut-bind:y=\"{{ ext.o.g }}\"/><block wx:for=\"{{ inl.list }}\"><v model:value=\"{{ item.name }}\" bind:tap=\"{{ item.f }}\" q=\"{{ item.name }}\"/></block><block wx:for=\"{{ ext.list }}\" wx:for-item=\"e\"><v model:value=\"{{ e.name }}\" bind:tap=\"{{ e.f }}\"/></block>");
+    loop_templates.push("<wxs module=\"ext\" src=\"/e1\"/><wxs module=\"inl\">exports.h = function inl_h(){}</wxs><v bind:tap=\"{{ a ? inl.h : ext.g }}\" change:p=\"{{ ext.o.g }}\"/>");
     let loop_data: Vec<J> = vec![
         json!({"$o": {"a": 1, "d": 0, "f": {"$fn": "ff"},
             "g": {"$a": [{"$o": {"title": "T0", "name": "n0", "members": {"$a": [{"$o": {"name": "m00", "tags": {"$a": [{"$o": {"text": "t000"}}, {"$o": {"text": "t001"}}]}}}, {"$o": {"name": "m01", "tags": {"$a": []}}}]}, "tags": {"$a": []}}},
@@ -315,7 +319,8 @@ pub fn run_matrix(tier: &str, seed: u64, out: &mut Out) {
     ];
     for (li, src) in loop_templates.iter().enumerate() {
         let mut tg = TmplGroup::new();
-        let diags = tg.add_tmpl("p", src);
+        tg.add_script("e1", "exports.g = function ext_g(){}; exports.o = {g: function ext_o_g(){}}; exports.list = [{name: 'e0', f: function ext_list_0_f(){}}]");
+        let diags = { crate::util::note_input(&*src); tg.add_tmpl("p", src) };
         let max_level = diags.iter().map(|d| d.kind.level() as u8).max().unwrap_or(0);
         let bundle = tg.get_tmpl_gen_object_groups().unwrap_or_default();
         for d0 in loop_data.iter() {
@@ -379,7 +384,7 @@ pub fn run_matrix(tier: &str, seed: u64, out: &mut Out) {
     ];
     for (li, src) in list_templates.iter().enumerate() {
         let mut tg = TmplGroup::new();
-        let diags = tg.add_tmpl("p", src);
+        let diags = { crate::util::note_input(&*src); tg.add_tmpl("p", src) };
         let max_level = diags.iter().map(|d| d.kind.level() as u8).max().unwrap_or(0);
         let bundle = tg.get_tmpl_gen_object_groups().unwrap_or_default();
         for (ci, (d0, steps)) in list_configs.iter().enumerate() {
@@ -411,7 +416,7 @@ pub fn run_matrix(tier: &str, seed: u64, out: &mut Out) {
             attrs = attrs_only, e = e);
         for (vi, src) in [attrs_only.clone(), full].iter().enumerate() {
             let mut tg = TmplGroup::new();
-            let diags = tg.add_tmpl("p", src);
+            let diags = { crate::util::note_input(&*src); tg.add_tmpl("p", src) };
             let max_level = diags.iter().map(|d| d.kind.level() as u8).max().unwrap_or(0);
             let bundle = tg.get_tmpl_gen_object_groups().unwrap_or_default();
             for (ci, d0) in configs.iter().enumerate() {
@@ -515,7 +520,7 @@ pub fn run_render(tier: &str, seed: u64, out: &mut Out) {
         let src = g.file();
         let feats: Vec<&str> = g.features.keys().cloned().collect();
         let mut tg = TmplGroup::new();
-        let diags = tg.add_tmpl("p", &src);
+        let diags = { crate::util::note_input(&*src); tg.add_tmpl("p", &src) };
         let max_level = diags.iter().map(|d| d.kind.level() as u8).max().unwrap_or(0);
         let t = tg.get_tree("p").unwrap();
         let s = crate::ast::Src::new(&src);
@@ -554,7 +559,7 @@ pub fn run_attrroute(_tier: &str, _seed: u64, out: &mut Out) {
                 let attr = if val.is_empty() { raw.clone() } else { format!("{}=\"{}\"", raw, val) };
                 let src = format!("<c><{} {}/></c>", el, attr);
                 let mut tg = TmplGroup::new();
-                let diags = tg.add_tmpl("p", &src);
+                let diags = { crate::util::note_input(&*src); tg.add_tmpl("p", &src) };
                 let max_level = diags.iter().map(|d| d.kind.level() as u8).max().unwrap_or(0);
                 let bundle = tg.get_tmpl_gen_object_groups().unwrap_or_default();
                 let job = json!({"kind": "attrroute", "el": el, "raw": raw, "src": src, "bundle": bundle, "max_level": max_level,
@@ -643,7 +648,7 @@ pub fn run_changes(tier: &str, seed: u64, out: &mut Out) {
     let mut id = 0;
     for (ti, src) in templates.iter().enumerate() {
         let mut tg = TmplGroup::new();
-        let diags = tg.add_tmpl("p", src);
+        let diags = { crate::util::note_input(&*src); tg.add_tmpl("p", src) };
         let max_level = diags.iter().map(|d| d.kind.level() as u8).max().unwrap_or(0);
         let bundle = tg.get_tmpl_gen_object_groups().unwrap_or_default();
         for h in 0..n_hist {
@@ -701,6 +706,73 @@ pub fn run_changes(tier: &str, seed: u64, out: &mut Out) {
             });
             id += 1;
             out.raw(&job.to_string());
+        }
+    }
+}
+
+
+// ---------------------------------------------------------------------------------------------------------------
+// C04: structural equivalences of the template language, independent of the implementation's own parse tree.  A directive
+// on an element is the directive wrapped around the element: `<X wx:if=C ATTRS>K</X>` == `<block wx:if=C><X ATTRS>K</X></block>`
+// (the same for wx:elif / wx:else chains and wx:for with its item / index / key attributes), for every element kind incl.
+// `<block slot=..>` (a virtual node carrying the slot) and `<slot>`.  Both sides are compiled and created with the same
+// data; the trees must be equal.
+pub fn run_pairs(_tier: &str, _seed: u64, out: &mut Out) {
+    let elems: Vec<(&str, &str, &str)> = vec![
+        // (open tag without the directive, children, close tag)
+        ("<view a=\"{{ a }}\"", "K{{ b }}", "</view>"),
+        ("<view slot=\"s\"", "K", "</view>"),
+        ("<view slot=\"{{ s }}\" id=\"i\"", "{{ a }}", "</view>"),
+        ("<block slot=\"s\"", "K{{ a }}", "</block>"),
+        ("<block slot=\"{{ s }}\"", "<v/>K", "</block>"),
+        ("<block", "<v/>K", "</block>"),
+        ("<slot name=\"n\"", "", "</slot>"),
+        ("<slot name=\"{{ s }}\" slot=\"t\"", "", "</slot>"),
+        ("<template is=\"t\" data=\"{{ x: a }}\"", "", "</template>"),
+        ("<c slot=\"s\" generic:g=\"x\"", "<v slot=\"q\">in</v>", "</c>"),
+    ];
+    let dirs: Vec<(&str, &str)> = vec![
+        // (directive attributes, what the body may use)
+        ("wx:if=\"{{ c }}\"", ""),
+        ("wx:if=\"{{ d }}\"", ""),
+        ("wx:for=\"{{ l }}\"", "{{ index }}{{ item.a }}"),
+        ("wx:for=\"{{ l }}\" wx:for-item=\"it\" wx:for-index=\"ix\" wx:key=\"a\"", "{{ ix }}{{ it.a }}"),
+        ("wx:for=\"{{ o }}\" wx:key=\"*this\"", "{{ index }}"),
+        ("wx:for=\"{{ 3 }}\"", "{{ item }}"),
+    ];
+    let datas: Vec<J> = vec![
+        json!({"$o": {"a": 1, "b": "B", "c": true, "d": 0, "s": "dyn", "l": {"$a": [{"$o": {"a": 1}}, {"$o": {"a": 2}}]}, "o": {"$o": {"k": "v", "m": "w"}}}}),
+        json!({"$o": {"a": "A", "b": null, "c": 0, "d": "yes", "s": "", "l": {"$a": []}, "o": {"$o": {}}}}),
+    ];
+    let mut id = 0;
+    let prelude = "<template name=\"t\">T{{ x }}</template>";
+    for (open, kids, close) in elems.iter() {
+        for (dir, body_use) in dirs.iter() {
+            let kids2 = format!("{}{}", kids, if open.starts_with("<slot") || open.starts_with("<template") { "" } else { body_use });
+            let a = format!("{}<v>before</v>{} {}>{}{}<v>after</v>", prelude, open, dir, kids2, close);
+            let b = format!("{}<v>before</v><block {}>{}>{}{}</block><v>after</v>", prelude, dir, open, kids2, close);
+            let mut pairs = vec![(a, b)];
+            if dir.starts_with("wx:if") {
+                // the chain forms
+                let a2 = format!("{}<v wx:if=\"{{{{ d }}}}\">first</v>{} wx:elif=\"{{{{ c }}}}\">{}{}{} wx:else>{}{}", prelude, open, kids2, close, open, kids2, close);
+                let b2 = format!("{}<v wx:if=\"{{{{ d }}}}\">first</v><block wx:elif=\"{{{{ c }}}}\">{}>{}{}</block><block wx:else>{}>{}{}</block>", prelude, open, kids2, close, open, kids2, close);
+                pairs.push((a2, b2));
+            }
+            for (a, b) in pairs {
+                let mut ga = TmplGroup::new();
+                let da = { crate::util::note_input(&*a); ga.add_tmpl("p", &a) };
+                let mut gb = TmplGroup::new();
+                let db = { crate::util::note_input(&*b); gb.add_tmpl("p", &b) };
+                let la = da.iter().map(|d| d.kind.level() as u8).max().unwrap_or(0);
+                let lb = db.iter().map(|d| d.kind.level() as u8).max().unwrap_or(0);
+                for d in datas.iter() {
+                    let job = json!({"kind": "pair", "id": id, "a": a, "b": b, "level_a": la, "level_b": lb,
+                                     "bundle_a": ga.get_tmpl_gen_object_groups().unwrap_or_default(),
+                                     "bundle_b": gb.get_tmpl_gen_object_groups().unwrap_or_default(), "data": d});
+                    out.raw(&job.to_string());
+                    id += 1;
+                }
+            }
         }
     }
 }
